@@ -7,6 +7,7 @@ import random
 from hypothesis import strategies as st
 
 import cfparse
+import hashes
 import damage
 import gen
 import treecmp
@@ -280,7 +281,10 @@ def run_case(case, ctx):
         classes.add("plan " + str(case["final"][0]) + ("" if case["final"][1] is None else " %d" % case["final"][1]))
         nontrivial = bool(stt and stt["times"] >= 3 and 0 < stt["selected"] < stt["with_info"])
         # eventual coverage
-        if case["coverage_test"] and stt and not changed_pos and not damaged:
+        # (only on an array that is healthy and fully synced: a stripe with an error that persists - a file fix gave up, pending
+        # blocks left by a sync that failed - is visited every time but can never be refreshed)
+        if case["coverage_test"] and stt and not changed_pos and not damaged and not cfparse.has_unsynced(w.content_model()) \
+                and w.cmd("check", shim_env={"CLOCK": now}).rc == 0:
             P = 25
             t_first = now + 11 * DAY
             tt = t_first
@@ -352,6 +356,15 @@ def predict_all(w, c):
                 continue
             cols.append(column[name])
             blks.append(np.frombuffer(parityoracle.block_bytes(cur, idx, bs), dtype=np.uint8))
+            if st_ == cfparse.REP:
+                # a copy-detected block carries the hash of the file it was taken for a copy of; what scrub compares is that hash
+                # with the bytes on disk (e.g. a silently damaged file that was then moved: the harness has registered the bytes
+                # that were moved, the hash is the one of the undamaged data)
+                info_ = c.info[pos]
+                kind_, seed_ = c.prevhash if (info_ and info_.rehash) else c.hash
+                if hashes.memhash(kind_, seed_, blk)[:c.hash_size] != h:
+                    generic = True
+                continue
             if st_ in (cfparse.BLK, cfparse.REP):
                 if ver is None:
                     unknown = True
